@@ -453,6 +453,20 @@ class Env:
 LITS = {}   # per-unit denotation of particular literals (set by gen_unit)
 
 
+MCTX = "{K C R : Type} {NK : Num K} {MS : MetricSig K C R}"
+_mm = lambda ps, **kw: dict(params={p: ("K" if p == "signal_range" else "C") for p in ps}, kind="value", **kw)
+UNITS["METRIC"] = dict(
+    out="C09_Metric", file="scico/metric.py", classes=[], context=MCTX, func_helpers=True, ravel="ravel_",
+    transparent_with=["np.errstate(divide='ignore')"],
+    prims={"snp.mean": "m_mean", "snp.var": "m_var", "snp.log10": "m_log10", "snp.abs": "habs",
+           "snp.linalg.norm": "m_norm", "snp.max": "m_amax", "snp.min": "m_amin"},
+    imports=["From SV Require Import C09.GenSig."],
+    methods={"mae": _mm(["reference", "comparison"]), "mse": _mm(["reference", "comparison"]),
+             "snr": _mm(["reference", "comparison"]), "psnr": _mm(["reference", "comparison", "signal_range"]),
+             "isnr": _mm(["reference", "degraded", "restored"]), "bsnr": _mm(["blurry", "noisy"]),
+             "rel_res": _mm(["ax", "b"], callees={"max": ("m_max", [])})})
+
+
 def lit(v):
     fr = Fraction(v) if not isinstance(v, float) else Fraction(str(v))
     if fr in LITS:
@@ -786,6 +800,10 @@ class Tr:
                 and isinstance(e.args[0].func, ast.Attribute) and e.args[0].func.attr == "keys" and not e.args[0].args \
                 and self.is_self(e.args[0].func.value) and e.args[0].func.value.attr in self.u.get("dict_attrs", []):
             return f"(dkeys_ {self.rd(e.args[0].func.value.attr, env)})"
+        if self.u.get("func_helpers") and isinstance(f, ast.Name) and f.id in self.helpers and not e.keywords:
+            return "(" + " ".join([self.helpers[f.id]] + [X(t) for t in e.args]) + ")"      # module-level function translated earlier
+        if self.u.get("ravel") and isinstance(f, ast.Attribute) and f.attr == "ravel" and n == 0 and not e.keywords:
+            return f"({self.u['ravel']} {X(f.value)})"
         if fs in self.u.get("prims", {}) and n == 1 and not e.keywords:
             return f"({self.u['prims'][fs]} {X(e.args[0])})"
         if fs in self.m.get("kwcallees", {}) and n == 0 and len(e.keywords) == 1 and e.keywords[0].arg is None \
@@ -1121,6 +1139,11 @@ class Tr:
                         fin.append(f"(Some {env.names[pn]})")
                 return f"({self.expr(st.value, env)}, {', '.join(fin)})"
             return self.expr(st.value, env)
+        if isinstance(st, ast.With):
+            if [ast.unparse(i.context_expr) for i in st.items] != self.u.get("transparent_with") \
+                    or any(i.optional_vars is not None for i in st.items):
+                self.bad(st, "with statement")
+            return self.block(list(st.body) + list(rest), env, k)     # a numpy warning filter: no effect on values
         if isinstance(st, ast.Break):
             if env.brk is None:
                 self.bad(st, "break outside a translated loop")
